@@ -370,7 +370,7 @@ def leaf_mutations(tree, rng, n=6):
         elif typ == T.BOOL:
             nv = not val
         elif typ == T.TEXT:
-            nv = rng.choice(('', 'x', 'Name', 'mutated-text', val + 'y'))
+            nv = rng.choice(('', 'x', 'Name', 'mutated-text', val + 'y', 'Schl\u00fcssel', 'cl\u00e9', '\u9375-key', val[:-1] + '\u00e9'))
         elif typ == T.BYTES:
             nv = rng.choice((b'', b'\x01', val + b'\x00', val[:-1]))
         else:
